@@ -998,6 +998,14 @@ def extreme_scales(ctx):
         cov.case(("scales", rep["X"]), True)
 
 
+
+def prepare(ctx):
+    """Translator tie (see gen_tie.py): the source of this slice is re-translated to Lean on every run
+    (harness/artv/ptrans.py) and proved equal to the model the property theorems are about"""
+    from .gen_tie import gen_prepare, extra_theorems
+    from .. import ptrans
+    gen_prepare(ctx, extra_theorems("ptrans"), ptrans.COVERS)
+
 def run(ctx):
     ctx.trusted += ["numpy/IEEE division by zero is modelled by `normWithChk` (non-finite = `nf`), not by the field division",
                     "float rounding of (x-min)/(max-min) is outside the theorems: compared exactly on dyadic data "
